@@ -166,15 +166,15 @@ def prepareOrder (H : Bytes → Bytes) (stored : List Bytes) (o : Order) (k : Na
 
 inductive WField
   | traderKey | auctionType | rateFixed | amt | minChanAmt | orderNonce | orderSig | multiSigKey | nodePub
-  | nodeAddr | channelType | maxBatchFeeRate | isPublic
+  | nodeAddr | channelType | maxBatchFeeRate | isPublic | allowedIds | notAllowedIds
   | details | leaseDurationBlocks | version | announcement | confirmation
   | minNodeTier | selfChanBalance | isSidecarChannel | unannounced | zeroConf
 deriving DecidableEq, Repr
 
 inductive WExpr
-  | acctKey | auctionTypeLocal | fixedRate | amtU64 | minChanAmtLocal | nonceLocal | rawSig | paramMultiSig
-  | paramNodePub | nodeAddrs | channelTypeLocal | feeU64 | isPublic
-  | detailsLocal | leaseDuration | versionU32 | announcementLocal | confirmationsLocal
+  | acctKey | auctionTypeEnum | fixedRate | amtU64 | minChanAmt | nonce | rawSig | paramMultiSig
+  | paramNodePub | channelTypeEnum | feeU64 | isPublic
+  | leaseDuration | versionU32 | announcement | confirmations
   | nodeTierEnum | scbU64 | sidecarNonNil | unannounced | zeroConf
 deriving DecidableEq, Repr
 
@@ -184,6 +184,7 @@ def parseWField : String → Option WField
   | "OrderSig" => some .orderSig | "MultiSigKey" => some .multiSigKey | "NodePub" => some .nodePub
   | "NodeAddr" => some .nodeAddr | "ChannelType" => some .channelType
   | "MaxBatchFeeRateSatPerKw" => some .maxBatchFeeRate | "IsPublic" => some .isPublic
+  | "AllowedNodeIds" => some .allowedIds | "NotAllowedNodeIds" => some .notAllowedIds
   | "Details" => some .details | "LeaseDurationBlocks" => some .leaseDurationBlocks
   | "Version" => some .version | "AnnouncementConstraints" => some .announcement
   | "ConfirmationConstraints" => some .confirmation | "MinNodeTier" => some .minNodeTier
@@ -191,39 +192,60 @@ def parseWField : String → Option WField
   | "UnannouncedChannel" => some .unannounced | "ZeroConfChannel" => some .zeroConf
   | _ => none
 
+/-- canonical value expressions of the literals: single-definition locals are replaced by their definition,
+the type-switch variable is `castOrder`, an enum conversion (switch in place or helper) is `enum(<value>)` -/
 def parseWExpr : String → Option WExpr
   | "o.Details().AcctKey[:]" => some .acctKey
-  | "auctionType" => some .auctionTypeLocal
+  | "enum(o.Details().AuctionType)" => some .auctionTypeEnum
   | "o.Details().FixedRate" => some .fixedRate
   | "uint64(o.Details().Amt)" => some .amtU64
-  | "minChanAmt" => some .minChanAmtLocal
-  | "nonce[:]" => some .nonceLocal
+  | "uint64(o.Details().MinUnitsMatch.ToSatoshis())" => some .minChanAmt
+  | "o.Nonce()[:]" => some .nonce
   | "serverParams.RawSig" => some .rawSig
   | "serverParams.MultiSigKey[:]" => some .paramMultiSig
   | "serverParams.NodePubkey[:]" => some .paramNodePub
-  | "nodeAddrs" => some .nodeAddrs
-  | "channelType" => some .channelTypeLocal
+  | "enum(o.Details().ChannelType)" => some .channelTypeEnum
   | "uint64(o.Details().MaxBatchFeeRate)" => some .feeU64
   | "o.Details().IsPublic" => some .isPublic
-  | "details" => some .detailsLocal
   | "castOrder.LeaseDuration" => some .leaseDuration
   | "uint32(castOrder.Version)" => some .versionU32
-  | "announcement" => some .announcementLocal
-  | "confirmations" => some .confirmationsLocal
-  | "nodeTierEnum" => some .nodeTierEnum
+  | "auctioneerrpc.ChannelAnnouncementConstraints(castOrder.AnnouncementConstraints)" => some .announcement
+  | "auctioneerrpc.ChannelConfirmationConstraints(castOrder.ConfirmationConstraints)" => some .confirmations
+  | "enum(castOrder.MinNodeTier)" => some .nodeTierEnum
   | "uint64(castOrder.SelfChanBalance)" => some .scbU64
   | "castOrder.SidecarTicket != nil" => some .sidecarNonNil
   | "castOrder.UnannouncedChannel" => some .unannounced
   | "castOrder.ZeroConfChannel" => some .zeroConf
   | _ => none
 
+/-- fields that carry no order term and whose value expression is not pinned (addresses, node id lists, the
+nested details message) -/
+def opaqueField : WField → Bool
+  | .nodeAddr | .allowedIds | .notAllowedIds | .details => true
+  | _ => false
+
+def WField.rank : WField → Nat
+  | .traderKey => 0 | .auctionType => 1 | .rateFixed => 2 | .amt => 3 | .minChanAmt => 4 | .orderNonce => 5
+  | .orderSig => 6 | .multiSigKey => 7 | .nodePub => 8 | .nodeAddr => 9 | .channelType => 10
+  | .maxBatchFeeRate => 11 | .isPublic => 12 | .allowedIds => 13 | .notAllowedIds => 14 | .details => 15
+  | .leaseDurationBlocks => 16 | .version => 17 | .announcement => 18 | .confirmation => 19
+  | .minNodeTier => 20 | .selfChanBalance => 21 | .isSidecarChannel => 22 | .unannounced => 23 | .zeroConf => 24
+
 abbrev Mapping := List (WField × WExpr)
 
-def compileLit (l : List (String × String)) : Option Mapping :=
-  l.mapM fun (f, e) => do
+def insertByRank (x : WField × WExpr) : Mapping → Mapping
+  | [] => [x]
+  | y :: ys => if x.1.rank ≤ y.1.rank then x :: y :: ys else y :: insertByRank x ys
+
+/-- the literal as a mapping field ↦ value: opaque fields dropped, sorted by field (the order of the fields
+in the Go literal is irrelevant); `none` if a field or a value expression is unknown -/
+def compileLit (l : List (String × String)) : Option Mapping := do
+  let m ← l.mapM fun (f, e) => do
     let f ← parseWField f
-    let e ← parseWExpr e
-    pure (f, e)
+    if opaqueField f then pure none else do
+      let e ← parseWExpr e
+      pure (some (f, e))
+  pure ((m.filterMap id).foldr insertByRank [])
 
 def serverOrderMap : Option Mapping := compileLit Gen.C12.submitServerOrder
 def serverAskMap : Option Mapping := compileLit Gen.C12.submitServerAsk
@@ -250,23 +272,21 @@ def two64 : Nat := 18446744073709551616
 (default clause of the channel type switch, `MarshallNodeTier` error) -/
 def evalW (o : Order) (p : Params) : WExpr → Option WV
   | .acctKey => some (.bytes o.acctKey)
-  | .auctionTypeLocal => some (.num ((Gen.C12.submitAuctionType.lookup o.auctionType).getD 0))
+  | .auctionTypeEnum => some (.num ((Gen.C12.submitAuctionType.lookup o.auctionType).getD 0))
   | .fixedRate => some (.num o.fixedRate)
   | .amtU64 => some (.num (u64OfInt o.amt))
-  | .minChanAmtLocal => some (.num (o.minUnitsMatch * base % two64))   -- uint64(MinUnitsMatch.ToSatoshis())
-  | .nonceLocal => some (.bytes o.nonce)
+  | .minChanAmt => some (.num (o.minUnitsMatch * base % two64))   -- uint64(MinUnitsMatch.ToSatoshis())
+  | .nonce => some (.bytes o.nonce)
   | .rawSig => some (.bytes p.rawSig)
   | .paramMultiSig => some (.bytes p.multiSigKey)
   | .paramNodePub => some (.bytes p.nodePubkey)
-  | .nodeAddrs => some .other
-  | .channelTypeLocal => (Gen.C12.submitChannelType.lookup o.channelType).map .num
+  | .channelTypeEnum => (Gen.C12.submitChannelType.lookup o.channelType).map .num
   | .feeU64 => some (.num (u64OfInt o.maxBatchFeeRate))
   | .isPublic => some (.bool o.isPublic)
-  | .detailsLocal => some .other
   | .leaseDuration => some (.num o.leaseDuration)
   | .versionU32 => some (.num o.version)
-  | .announcementLocal => some (.num o.announcement)
-  | .confirmationsLocal => some (.num o.confirmation)
+  | .announcement => some (.num o.announcement)
+  | .confirmations => some (.num o.confirmation)
   | .nodeTierEnum => (Gen.C12.marshallNodeTier.lookup o.minNodeTier).map .num
   | .scbU64 => some (.num (u64OfInt o.selfChanBalance))
   | .sidecarNonNil => some (.bool o.sidecar)
